@@ -23,8 +23,8 @@ class _Timeout(Exception): pass
 def _alarm(sig, frm): raise _Timeout()
 def _work(i):
     ob = _OBS[i]; t0 = time.time()
-    from . import smt
-    q0 = dict(smt.STATS)
+    from . import smt, interp
+    q0 = dict(smt.STATS); p0 = list(interp.QSTAT)
     signal.signal(signal.SIGALRM, _alarm); signal.alarm(int(ob.timeout or (1800 if _CTX.thorough else 600)))
     try: r = ob.fn(_CTX, *ob.args, **ob.kwargs)
     except _Timeout: r = inconc('obligation exceeded its wall-clock budget')
@@ -34,6 +34,7 @@ def _work(i):
     finally: signal.alarm(0)
     r['id'] = ob.id; r['wall_s'] = round(time.time() - t0, 3)
     r['queries'] = smt.STATS['queries'] - q0['queries']; r['solver_s'] = round(smt.STATS['solver_s'] - q0['solver_s'], 3)
+    r['path_queries'] = interp.QSTAT[0] - p0[0]; r['path_solver_s'] = round(interp.QSTAT[1] - p0[1], 3)
     r['cvc5_checked'] = smt.STATS['cvc5_checked'] - q0['cvc5_checked']; r['cvc5_agree'] = smt.STATS['cvc5_agree'] - q0['cvc5_agree']
     return r
 
@@ -137,6 +138,7 @@ def write_evidence(mod, ctx, results, val, wall, nviol, nknown, ninc):
             'outside_claim': meta.get('outside', []),
             'stubs': meta.get('stubs', []),
             'solver_queries': sum(r.get('queries', 0) for r in results), 'solver_time_s': round(sum(r.get('solver_s', 0) for r in results), 2),
+            'path_feasibility_queries': sum(r.get('path_queries', 0) for r in results), 'path_feasibility_time_s': round(sum(r.get('path_solver_s', 0) for r in results), 2),
             'cvc5_crosschecked': sum(r.get('cvc5_checked', 0) for r in results), 'cvc5_agree': sum(r.get('cvc5_agree', 0) for r in results),
             'translator_validation_vectors': val.get('vectors', 0), 'translator_validation_mismatches': len(val.get('mismatches', [])),
             'ir_build': os.path.basename(ctx.bdir), 'known_findings': nknown, 'inconclusive': ninc,
